@@ -611,10 +611,6 @@ func (vfs *OrefaFS) OpenFile(name string, flag int, perm fs.FileMode) (avfs.File
 			return (*OrefaFile)(nil), &fs.PathError{Op: op, Path: name, Err: vfs.err.NoSuchFile}
 		}
 
-		if om&avfs.OpenWrite == 0 {
-			return (*OrefaFile)(nil), &fs.PathError{Op: op, Path: name, Err: vfs.err.PermDenied}
-		}
-
 		verifYield(&vfs.mu, true)
 		vfs.mu.Lock()
 		defer vfs.mu.Unlock()
@@ -632,7 +628,7 @@ func (vfs *OrefaFS) OpenFile(name string, flag int, perm fs.FileMode) (avfs.File
 				return (*OrefaFile)(nil), &fs.PathError{Op: op, Path: name, Err: vfs.err.FileExists}
 			}
 
-			if om&avfs.OpenWrite != 0 {
+			if om&(avfs.OpenWrite|avfs.OpenCreate|avfs.OpenTruncate) != 0 {
 				return (*OrefaFile)(nil), &fs.PathError{Op: op, Path: name, Err: vfs.err.IsADirectory}
 			}
 		} else {
@@ -647,9 +643,6 @@ func (vfs *OrefaFS) OpenFile(name string, flag int, perm fs.FileMode) (avfs.File
 				child.mu.Unlock()
 			}
 
-			if om&avfs.OpenAppend != 0 {
-				at = child.Size()
-			}
 		}
 	}
 
